@@ -21,12 +21,19 @@ of three named exits, each witnessed):
   (its decode limit is re-read from the code on every run). Otherwise the process can die inside `load_checkpoint`
   — witnessed for the pinned commit's unlimited decoder (`legacy_decoder_recovery_dies`).
 * `DirUsable`: the configured checkpoint directory can be created (`CheckpointManager::new(config)?`) and, when
-  `auto_recover` is on, listed (`find_latest_checkpoint(..)?`). These two `?` exist only in the checkpointing
+  `auto_recover` is on and the path `exists()`, listed (`find_latest_checkpoint(..)?`). These two `?` exist only in the checkpointing
   engines: with a directory path that is a regular file the checkpointing run returns `Err("Failed to create
   checkpoint directory")` where the plain run returns the rows — `unusable_directory_not_transparent` (reproduced on
   the real code by the harness, jobs `dir=file`). Read as a PRECONDITION of the property (a run that was asked to
   checkpoint into an impossible place refuses to start, before any node runs and without touching anything), not
   as a defect; see the MANIFEST note.
+
+Also part of "every environment" (no hypothesis): a checkpoint directory that stops being usable at any node of the run
+(`Env.failFrom` — every later save and the final clear fail; §3b), leftover files too large to be read into memory
+(`Env.tooBig`), a path for which `exists()` is false (`Env.dirExists`; the empty path before the fix, §3b). The
+requested element type `T` of `run_collect::<T>` and `partitions: None` are covered by the typed layer (§3c).
+"Clean after success" needs a store that works to the end (`dirListable`, `storeFailsAtEnd = false`); without it the
+files saved so far stay (`unlistable_success_clears_nothing`).
 
 Sub-directories inside the checkpoint directory (`Env.isDir`) — in particular one with a well-formed checkpoint name —
 are part of "every initial directory": they never change the result; they are skipped by all three scans (regular files only), hence NOT
@@ -51,7 +58,7 @@ theorem current_decoder_safe (env : Env) (mem : Nat) (hmem : IB.Generated.ckptDe
 
 /-- a directory that can be created and listed is usable under every configuration -/
 theorem dirUsable_of (env : Env) (cfg : Config) (hc : env.dirCreatable = true) (hl : env.dirListable = true) :
-    DirUsable env cfg := ⟨hc, fun _ => hl⟩
+    DirUsable env cfg := ⟨hc, fun _ _ => hl⟩
 
 /-! ## 1. Transparency -/
 
@@ -107,10 +114,11 @@ theorem ckpt_transparent_par (concat : List P → P) (env : Env) (hsafe : SafeDe
     function are and whichever entries of the (creatable, listable) directory are sub-directories, with the decode
     limit the running code has. -/
 theorem ckpt_transparent_current (H : Bytes → Bytes) (clock : Nat → Nat) (progress : Nat → Nat → UInt8) (mem : Nat)
-    (isDir : Name → Bool)
+    (isDir tooBig : Name → Bool) (failFrom : Option Nat)
     (hmem : IB.Generated.ckptDecodeLimit ≤ mem) (concat : List P → P) (cfg : Config) (fs : FS)
     (chain : List (Node P)) (n : Nat) :
-    let env : Env := { H := H, dec := currentCfg mem, clock := clock, progress := progress, isDir := isDir }
+    let env : Env := { H := H, dec := currentCfg mem, clock := clock, progress := progress, isDir := isDir,
+                       tooBig := tooBig, failFrom := failFrom }
     (execSeqCkpt env cfg fs chain).outcome = .finished (execSeq chain) ∧
     (execParCkpt concat env cfg fs chain n).outcome = .finished (execPar concat chain n) := by
   intro env
@@ -121,9 +129,9 @@ theorem ckpt_transparent_current (H : Bytes → Bytes) (clock : Nat → Nat) (pr
 /-- **`Runner::run_collect`**: for every runner (either mode, any partition count) the outcome with ANY checkpoint
     configuration — enabled or not, any policy, retention, `auto_recover` — on ANY content of a usable directory equals
     the outcome of the same runner without a checkpoint configuration. -/
-theorem run_collect_transparent (concat : List P → P) (env : Env) (hsafe : SafeDecoder env)
-    (hc : env.dirCreatable = true) (hl : env.dirListable = true) (mode : ExecMode)
-    (ck : Option (Bool × Config)) (fs fs' : FS) (chain : List (Node P)) :
+theorem run_collect_transparent (concat : List P → P) (env : Env) (hsafe : SafeDecoder env) (mode : ExecMode)
+    (ck : Option (Bool × Config)) (hdir : ∀ cfg, ck = some (true, cfg) → DirUsable env cfg)
+    (fs fs' : FS) (chain : List (Node P)) :
     (runCollect concat env { mode := mode, checkpoint := ck } fs chain).outcome =
       (runCollect concat env { mode := mode, checkpoint := none } fs' chain).outcome := by
   unfold runCollect
@@ -135,8 +143,8 @@ theorem run_collect_transparent (concat : List P → P) (env : Env) (hsafe : Saf
     | false => cases mode <;> rfl
     | true =>
       cases mode with
-      | sequential => exact ckpt_transparent env hsafe cfg (dirUsable_of env cfg hc hl) fs chain
-      | parallel n => exact ckpt_transparent_par concat env hsafe cfg (dirUsable_of env cfg hc hl) fs chain n
+      | sequential => exact ckpt_transparent env hsafe cfg (hdir cfg rfl) fs chain
+      | parallel n => exact ckpt_transparent_par concat env hsafe cfg (hdir cfg rfl) fs chain n
 
 /-- without an enabled checkpoint configuration the directory is not touched (nor looked at: no hypothesis on it) -/
 theorem run_collect_disabled_touches_nothing (concat : List P → P) (env : Env) (mode : ExecMode) (cfg : Config)
@@ -169,10 +177,11 @@ theorem ckpt_transparent_program (env : Env) (hsafe : SafeDecoder env) (cfg : Co
 theorem ckpt_outcome_cases (env : Env) (cfg : Config) (fs : FS) (chain : List (Node P)) :
     (execSeqCkpt env cfg fs chain).outcome = .finished (execSeq chain) ∨
     (env.dirCreatable = false ∧ (execSeqCkpt env cfg fs chain).outcome = .setupFailed .createDir) ∨
-    (env.dirCreatable = true ∧ cfg.autoRecover = true ∧ env.dirListable = false ∧
+    (env.dirCreatable = true ∧ cfg.autoRecover = true ∧ env.dirExists = true ∧ env.dirListable = false ∧
       (execSeqCkpt env cfg fs chain).outcome = .setupFailed .readDir) ∨
     ∃ name bytes e, cfg.autoRecover = true ∧ latestD env.isDir (seqPid env chain.length) fs = some name ∧
-      env.isDir name = false ∧ read fs name = some bytes ∧ load env.H env.dec bytes = .error e ∧ kills e = true ∧
+      env.isDir name = false ∧ env.tooBig name = false ∧ read fs name = some bytes ∧
+      load env.H env.dec bytes = .error e ∧ kills e = true ∧
       (execSeqCkpt env cfg fs chain).outcome = .died e := by
   cases hc : env.dirCreatable with
   | false =>
@@ -182,14 +191,14 @@ theorem ckpt_outcome_cases (env : Env) (cfg : Config) (fs : FS) (chain : List (N
     simp [hc]
   | true =>
     rcases recover_cases env cfg (seqPid env chain.length) fs with
-      ⟨lg, hlg⟩ | ⟨h1, h2, h3⟩ | ⟨name, bytes, e, h1, _, h2, hd, h3, h4, h5, h6⟩
+      ⟨lg, hlg⟩ | ⟨h1, hex, h2, h3⟩ | ⟨name, bytes, e, h1, _, h2, hd, hb, h3, h4, h5, h6⟩
     · left; exact seq_after_recovery env cfg fs chain lg hc hlg
     · right; right; left
-      refine ⟨rfl, h1, h2, ?_⟩
+      refine ⟨rfl, h1, hex, h2, ?_⟩
       unfold execSeqCkpt
       simp only [hc, h3, Bool.not_true, Bool.false_eq_true, if_false]
     · right; right; right
-      refine ⟨name, bytes, e, h1, h2, hd, h3, h4, h5, ?_⟩
+      refine ⟨name, bytes, e, h1, h2, hd, hb, h3, h4, h5, ?_⟩
       unfold execSeqCkpt
       simp only [hc, h6, Bool.not_true, Bool.false_eq_true, if_false]
 
@@ -197,10 +206,11 @@ theorem ckpt_outcome_cases_par (concat : List P → P) (env : Env) (cfg : Config
     (n : Nat) :
     (execParCkpt concat env cfg fs chain n).outcome = .finished (execPar concat chain n) ∨
     (env.dirCreatable = false ∧ (execParCkpt concat env cfg fs chain n).outcome = .setupFailed .createDir) ∨
-    (env.dirCreatable = true ∧ cfg.autoRecover = true ∧ env.dirListable = false ∧
+    (env.dirCreatable = true ∧ cfg.autoRecover = true ∧ env.dirExists = true ∧ env.dirListable = false ∧
       (execParCkpt concat env cfg fs chain n).outcome = .setupFailed .readDir) ∨
     ∃ name bytes e, cfg.autoRecover = true ∧ latestD env.isDir (parPid env chain.length n) fs = some name ∧
-      env.isDir name = false ∧ read fs name = some bytes ∧ load env.H env.dec bytes = .error e ∧ kills e = true ∧
+      env.isDir name = false ∧ env.tooBig name = false ∧ read fs name = some bytes ∧
+      load env.H env.dec bytes = .error e ∧ kills e = true ∧
       (execParCkpt concat env cfg fs chain n).outcome = .died e := by
   cases hc : env.dirCreatable with
   | false =>
@@ -210,14 +220,14 @@ theorem ckpt_outcome_cases_par (concat : List P → P) (env : Env) (cfg : Config
     simp [hc]
   | true =>
     rcases recover_cases env cfg (parPid env chain.length n) fs with
-      ⟨lg, hlg⟩ | ⟨h1, h2, h3⟩ | ⟨name, bytes, e, h1, _, h2, hd, h3, h4, h5, h6⟩
+      ⟨lg, hlg⟩ | ⟨h1, hex, h2, h3⟩ | ⟨name, bytes, e, h1, _, h2, hd, hb, h3, h4, h5, h6⟩
     · left; exact par_after_recovery concat env cfg fs chain n lg hc hlg
     · right; right; left
-      refine ⟨rfl, h1, h2, ?_⟩
+      refine ⟨rfl, h1, hex, h2, ?_⟩
       unfold execParCkpt
       simp only [hc, h3, Bool.not_true, Bool.false_eq_true, if_false]
     · right; right; right
-      refine ⟨name, bytes, e, h1, h2, hd, h3, h4, h5, ?_⟩
+      refine ⟨name, bytes, e, h1, h2, hd, hb, h3, h4, h5, ?_⟩
       unfold execParCkpt
       simp only [hc, h6, Bool.not_true, Bool.false_eq_true, if_false]
 
@@ -230,10 +240,11 @@ theorem recovery_only_hurts_through_load (env : Env) (cfg : Config) (hdir : DirU
     ∃ name bytes e, cfg.autoRecover = true ∧ latestD env.isDir (seqPid env chain.length) fs = some name ∧
       read fs name = some bytes ∧ load env.H env.dec bytes = .error e ∧ kills e = true ∧
       (execSeqCkpt env cfg fs chain).outcome = .died e := by
-  rcases ckpt_outcome_cases env cfg fs chain with h | ⟨h, _⟩ | ⟨_, h1, h2, _⟩ | ⟨name, bytes, e, h1, h2, _, h3, h4, h5, h6⟩
+  rcases ckpt_outcome_cases env cfg fs chain with
+    h | ⟨h, _⟩ | ⟨_, h1, hex, h2, _⟩ | ⟨name, bytes, e, h1, h2, _, _, h3, h4, h5, h6⟩
   · left; exact h
   · rw [hdir.1] at h; cases h
-  · rw [hdir.2 h1] at h2; cases h2
+  · rw [hdir.2 h1 hex] at h2; cases h2
   · right; exact ⟨name, bytes, e, h1, h2, h3, h4, h5, h6⟩
 
 /-- **NEGATION without `DirUsable` (1)**: when the configured directory cannot be created (e.g. the path is a regular
@@ -255,8 +266,10 @@ theorem unusable_directory_not_transparent (concat : List P → P) (env : Env) (
   refine ⟨rfl, ?_, rfl, rfl, ?_, rfl⟩ <;> (intro h; cases h)
 
 /-- **NEGATION without `DirUsable` (2)**: the directory exists but cannot be listed (e.g. mode 0300) and `auto_recover`
-    is on: `find_latest_checkpoint(..)?` returns its `Err`. (With `auto_recover` off the run goes through.) -/
+    is on: `find_latest_checkpoint(..)?` returns its `Err`. (With `auto_recover` off, or with a path for which
+    `exists()` is false, the run goes through.) -/
 theorem unlistable_directory_not_transparent (concat : List P → P) (env : Env) (hc : env.dirCreatable = true)
+    (he : env.dirExists = true)
     (hl : env.dirListable = false) (cfg : Config) (hrec : cfg.autoRecover = true) (fs : FS) (chain : List (Node P))
     (n : Nat) :
     (execSeqCkpt env cfg fs chain).outcome = .setupFailed .readDir ∧
@@ -264,7 +277,7 @@ theorem unlistable_directory_not_transparent (concat : List P → P) (env : Env)
     (execParCkpt concat env cfg fs chain n).outcome = .setupFailed .readDir ∧
     (execParCkpt concat env cfg fs chain n).fs = fs := by
   have hr : ∀ pid, recover env cfg pid fs = .error .readDir := by
-    intro pid; unfold recover; simp [hrec, hl]
+    intro pid; unfold recover; simp [hrec, he, hl]
   have h1 : execSeqCkpt env cfg fs chain = { outcome := .setupFailed .readDir, fs := fs, log := none } := by
     unfold execSeqCkpt; simp only [hc, hr, Bool.not_true, Bool.false_eq_true, if_false]
   have h2 : execParCkpt concat env cfg fs chain n = { outcome := .setupFailed .readDir, fs := fs, log := none } := by
@@ -279,7 +292,7 @@ theorem unlistable_directory_not_transparent (concat : List P → P) (env : Env)
     retention) is gone again, nothing else was created, deleted, renamed or rewritten; sub-directories (own-named ones
     included) stay. -/
 theorem ckpt_success_fs (env : Env) (hl : env.dirListable = true) (cfg : Config) (fs : FS) (chain : List (Node P))
-    (v : P) (hok : (execSeqCkpt env cfg fs chain).outcome = .finished (.ok v)) :
+    (hf : storeFailsAtEnd env chain.length = false) (v : P) (hok : (execSeqCkpt env cfg fs chain).outcome = .finished (.ok v)) :
     (execSeqCkpt env cfg fs chain).fs = clearD env.isDir (seqPid env chain.length) fs := by
   unfold execSeqCkpt at hok ⊢
   cases hc : env.dirCreatable with
@@ -296,11 +309,11 @@ theorem ckpt_success_fs (env : Env) (hl : env.dirListable = true) (cfg : Config)
       cases r with
       | none => simp [h1] at hok
       | some b =>
-        simp only [clearRun, hl, if_true]
+        simp only [clearRun, hl, hf, Bool.not_false, Bool.and_self, if_true]
         exact clearD_runNodes stepSeqCk env cfg _ _ chain 0 none (initSt fs)
 
 theorem ckpt_success_fs_par (concat : List P → P) (env : Env) (hl : env.dirListable = true) (cfg : Config) (fs : FS)
-    (chain : List (Node P)) (n : Nat) (v : P)
+    (chain : List (Node P)) (hf : storeFailsAtEnd env chain.length = false) (n : Nat) (v : P)
     (hok : (execParCkpt concat env cfg fs chain n).outcome = .finished (.ok v)) :
     (execParCkpt concat env cfg fs chain n).fs = clearD env.isDir (parPid env chain.length n) fs := by
   unfold execParCkpt at hok ⊢
@@ -313,7 +326,7 @@ theorem ckpt_success_fs_par (concat : List P → P) (env : Env) (hl : env.dirLis
   | ok lg =>
     simp only [hr] at hok ⊢
     cases h1 : execPar concat chain n with
-    | ok w => simp only [clearRun, hl, if_true]
+    | ok w => simp only [clearRun, hl, hf, Bool.not_false, Bool.and_self, if_true]
     | error e =>
       simp only [h1] at hok
       split at hok <;> simp at hok
@@ -321,30 +334,30 @@ theorem ckpt_success_fs_par (concat : List P → P) (env : Env) (hl : env.dirLis
 /-- **Clean after success** (sequential): a successful run leaves no well-formed checkpoint FILE of its pipeline id
     behind — neither one it wrote nor one it found. -/
 theorem ckpt_clean_after_success (env : Env) (hl : env.dirListable = true) (cfg : Config) (fs : FS)
-    (chain : List (Node P)) (v : P) (hok : (execSeqCkpt env cfg fs chain).outcome = .finished (.ok v)) :
+    (chain : List (Node P)) (hs : storeFailsAtEnd env chain.length = false) (v : P) (hok : (execSeqCkpt env cfg fs chain).outcome = .finished (.ok v)) :
     ∀ f ∈ (execSeqCkpt env cfg fs chain).fs, ownFile env.isDir (seqPid env chain.length) f.1 = false := by
   intro f hf
-  rw [ckpt_success_fs env hl cfg fs chain v hok] at hf
+  rw [ckpt_success_fs env hl cfg fs chain hs v hok] at hf
   exact ((mem_clearD _ _ fs f).mp hf).2
 
 /-- **Clean after success** (parallel). -/
 theorem ckpt_clean_after_success_par (concat : List P → P) (env : Env) (hl : env.dirListable = true) (cfg : Config)
-    (fs : FS) (chain : List (Node P)) (n : Nat) (v : P)
+    (fs : FS) (chain : List (Node P)) (hs : storeFailsAtEnd env chain.length = false) (n : Nat) (v : P)
     (hok : (execParCkpt concat env cfg fs chain n).outcome = .finished (.ok v)) :
     ∀ f ∈ (execParCkpt concat env cfg fs chain n).fs, ownFile env.isDir (parPid env chain.length n) f.1 = false := by
   intro f hf
-  rw [ckpt_success_fs_par concat env hl cfg fs chain n v hok] at hf
+  rw [ckpt_success_fs_par concat env hl cfg fs chain hs n v hok] at hf
   exact ((mem_clearD _ _ fs f).mp hf).2
 
 /-- … so when the directory held no own-named SUB-DIRECTORY to begin with, no entry with a well-formed checkpoint name
     of this id is left at all (the statement for a plain directory of files; `Env.isDir = fun _ => false` is the
     special case) -/
 theorem ckpt_clean_after_success_no_dirs (env : Env) (hl : env.dirListable = true) (cfg : Config) (fs : FS)
-    (chain : List (Node P)) (v : P) (hok : (execSeqCkpt env cfg fs chain).outcome = .finished (.ok v))
+    (chain : List (Node P)) (hs : storeFailsAtEnd env chain.length = false) (v : P) (hok : (execSeqCkpt env cfg fs chain).outcome = .finished (.ok v))
     (hnd : ∀ f ∈ fs, isOwn (seqPid env chain.length) f.1 = true → env.isDir f.1 = false) :
     ∀ f ∈ (execSeqCkpt env cfg fs chain).fs, isOwn (seqPid env chain.length) f.1 = false := by
   intro f hf
-  rw [ckpt_success_fs env hl cfg fs chain v hok] at hf
+  rw [ckpt_success_fs env hl cfg fs chain hs v hok] at hf
   obtain ⟨hin, hof⟩ := (mem_clearD _ _ fs f).mp hf
   cases ho : isOwn (seqPid env chain.length) f.1 with
   | false => rfl
@@ -354,11 +367,12 @@ theorem ckpt_clean_after_success_no_dirs (env : Env) (hl : env.dirListable = tru
     rw [ho, this] at hof
     cases hof
 
-/-- `clean after success` DOES need a listable directory: with `auto_recover` off a run into a directory that cannot be
-    listed goes through, and its final `clear_checkpoints(..).ok()` does nothing — the directory is exactly what a run
-    killed after its last node leaves (every file that was saved and not removed… and retention removed nothing). -/
-theorem unlistable_success_clears_nothing (env : Env) (hl : env.dirListable = false) (cfg : Config) (fs : FS)
-    (chain : List (Node P)) (v : P) (hok : (execSeqCkpt env cfg fs chain).outcome = .finished (.ok v)) :
+/-- `clean after success` DOES need a store that works to the end: when the directory cannot be listed (with
+    `auto_recover` off, or a path whose `exists()` is false, such a run goes through), or stops being usable while some
+    node of the chain runs (`Env.failFrom`), the final `clear_checkpoints(..).ok()` does nothing — the directory is
+    exactly what a run killed after its last node leaves (every file that was saved and not removed by retention). -/
+theorem unlistable_success_clears_nothing (env : Env) (cfg : Config) (fs : FS) (chain : List (Node P))
+    (hl : env.dirListable = false ∨ storeFailsAtEnd env chain.length = true) (v : P) (hok : (execSeqCkpt env cfg fs chain).outcome = .finished (.ok v)) :
     (execSeqCkpt env cfg fs chain).fs = crashFs env cfg fs chain chain.length := by
   unfold execSeqCkpt at hok ⊢
   unfold crashFs
@@ -376,7 +390,7 @@ theorem unlistable_success_clears_nothing (env : Env) (hl : env.dirListable = fa
     | ok r =>
       cases r with
       | none => simp [h1] at hok
-      | some b => simp [clearRun, hl]
+      | some b => rcases hl with hl | hl <;> simp [clearRun, hl]
 
 /-- every name a run can write is a well-formed checkpoint name of its own pipeline id (so "its files" are covered
     by the theorems above) -/
@@ -419,7 +433,7 @@ theorem other_entries_untouched_par (concat : List P → P) (env : Env) (cfg : C
     | ok lg =>
       simp only [hr]
       cases h1 : execPar concat chain n with
-      | ok w => simp only []; exact clearD_clearRun _ _ _
+      | ok w => simp only []; exact clearD_clearRun _ _ _ _
       | error e =>
         simp only []
         split
@@ -492,14 +506,15 @@ theorem same_length_same_id (env : Env) (a b : List (Node P)) (h : a.length = b.
 
 theorem success_clears_equal_length_pipelines_files (env env' : Env) (hH : env'.H = env.H)
     (hl : env.dirListable = true) (cfg cfg' : Config)
-    (fs : FS) (a b : List (Node P)) (hlen : a.length = b.length) (k : Nat) (v : P)
+    (fs : FS) (a b : List (Node P)) (hs : storeFailsAtEnd env a.length = false) (hlen : a.length = b.length) (k : Nat)
+    (v : P)
     (hok : (execSeqCkpt env cfg (crashFs env' cfg' fs b k) a).outcome = .finished (.ok v)) :
     ∀ f ∈ (execSeqCkpt env cfg (crashFs env' cfg' fs b k) a).fs,
       ownFile env.isDir (seqPid env' b.length) f.1 = false := by
   have hp : seqPid env' b.length = seqPid env a.length := by
     unfold seqPid pipelineId; rw [hH, hlen]
   rw [hp]
-  exact ckpt_clean_after_success env hl cfg _ a v hok
+  exact ckpt_clean_after_success env hl cfg _ a hs v hok
 
 /-! ## 3. Recovery ignores whatever is in the directory; crashes and torn / garbage files
 
@@ -548,12 +563,12 @@ theorem crash_then_recover_par (concat : List P → P) (env₂ : Env) (hsafe : S
 
 /-- … and if that second run succeeds, the directory is clean again (the crashed run's files included). -/
 theorem crash_then_recover_clean (env₁ env₂ : Env) (hl : env₂.dirListable = true) (cfg₁ cfg₂ : Config) (fs : FS)
-    (chain : List (Node P)) (k : Nat)
+    (chain : List (Node P)) (hs : storeFailsAtEnd env₂ chain.length = false) (k : Nat)
     (tamper : FS → FS) (v : P)
     (hok : (execSeqCkpt env₂ cfg₂ (tamper (crashFs env₁ cfg₁ fs chain k)) chain).outcome = .finished (.ok v)) :
     ∀ f ∈ (execSeqCkpt env₂ cfg₂ (tamper (crashFs env₁ cfg₁ fs chain k)) chain).fs,
       ownFile env₂.isDir (seqPid env₂ chain.length) f.1 = false :=
-  ckpt_clean_after_success env₂ hl cfg₂ _ chain v hok
+  ckpt_clean_after_success env₂ hl cfg₂ _ chain hs v hok
 
 /-- a file torn at byte `o`: any prefix of its content -/
 def tear (name : Name) (o : Nat) (fs : FS) : FS := fs.map (fun f => if f.1 == name then (f.1, f.2.take o) else f)
@@ -606,10 +621,12 @@ theorem legacy_decoder_recovery_dies (H : Bytes → Bytes) (clock : Nat → Nat)
       [(fileNameOf (seqPid env chain.length) 5, [253, 0, 0, 0, 0, 0, 0, 0, 128])] = .error (.died .capacityOverflow) := by
     unfold recover
     have hli : env.dirListable = true := rfl
+    have hex : env.dirExists = true := rfl
     have hnd : ∀ n, env.isDir n = false := fun _ => rfl
-    simp only [Bool.not_true, Bool.false_eq_true, if_false, hli]
+    have hnb : ∀ n, env.tooBig n = false := fun _ => rfl
+    simp only [Bool.not_true, Bool.false_eq_true, if_false, hli, hex]
     rw [latestD_noDirs _ hnd, latest_single_own _ 5 (by decide)]
-    simp only [readD, hnd, Bool.false_eq_true, if_false, read_single]
+    simp only [readD, hnd, hnb, Bool.or_self, Bool.false_eq_true, if_false, read_single]
     show (match load H (Checkpoint.Legacy.cfg mem) [253, 0, 0, 0, 0, 0, 0, 0, 128] with
       | .ok s => Except.ok (RecLog.loaded s)
       | .error e => if kills e then .error (RecFail.died e) else .ok (.rejected e)) = _
@@ -617,6 +634,229 @@ theorem legacy_decoder_recovery_dies (H : Bytes → Bytes) (clock : Nat → Nat)
   have hc : env.dirCreatable = true := rfl
   unfold execSeqCkpt
   simp only [hc, hrec, Bool.not_true, Bool.false_eq_true, if_false]
+
+/-! ## 3b. Store operations that fail, a path that does not exist, leftovers too large to read
+
+`save_checkpoint` / `clear_checkpoints` results are only logged (`match … { Err(e) => eprintln!(..) }`, `.ok()`): a
+store that stops working while the run is in progress (`Env.failFrom`: the directory is renamed / removed / replaced by
+a user closure or another process) must not fail the run. `ckpt_transparent` already quantifies over it; the theorems
+below say so explicitly, and say what is then left behind. -/
+
+/-- **A store that stops working mid-run never changes the result**: whatever node the directory disappears at (or
+    never), the outcome is the same — every later save and the final clear fail silently. -/
+theorem store_failure_never_changes_the_result (env : Env) (hsafe : SafeDecoder env) (cfg : Config)
+    (hdir : DirUsable env cfg) (fs : FS) (chain : List (Node P)) (k : Option Nat) :
+    (execSeqCkpt { env with failFrom := k } cfg fs chain).outcome = .finished (execSeq chain) :=
+  ckpt_transparent { env with failFrom := k } hsafe cfg hdir fs chain
+
+theorem store_failure_never_changes_the_result_par (concat : List P → P) (env : Env) (hsafe : SafeDecoder env)
+    (cfg : Config) (hdir : DirUsable env cfg) (fs : FS) (chain : List (Node P)) (n : Nat) (k : Option Nat) :
+    (execParCkpt concat { env with failFrom := k } cfg fs chain n).outcome = .finished (execPar concat chain n) :=
+  ckpt_transparent_par concat { env with failFrom := k } hsafe cfg hdir fs chain n
+
+/-- once the store has failed, no save changes the directory any more -/
+theorem failed_save_changes_nothing (env : Env) (cfg : Config) (st : St) (s : State) :
+    doSave env cfg true st s = st := rfl
+
+/-- a configured path for which `exists()` is false (the empty path, before the fix): recovery sees nothing and does
+    NOT fail, whether or not `read_dir` would -/
+theorem recovery_on_nonexistent_path_sees_nothing (env : Env) (he : env.dirExists = false) (cfg : Config)
+    (hrec : cfg.autoRecover = true) (pid : Bytes) (fs : FS) : recover env cfg pid fs = .ok .nothing := by
+  unfold recover; simp [hrec, he]
+
+/-- a newest own-named file that is too large to be read into memory is logged and ignored -/
+theorem too_big_leftover_is_skipped (env : Env) (he : env.dirExists = true) (hl : env.dirListable = true)
+    (cfg : Config) (hrec : cfg.autoRecover = true) (pid : Bytes) (fs : FS) (name : Name)
+    (hlatest : latestD env.isDir pid fs = some name) (hbig : env.tooBig name = true) :
+    recover env cfg pid fs = .ok .unreadable := by
+  unfold recover; simp [hrec, he, hl, hlatest, readD, hbig]
+
+/-! ### the code before the fix "an empty checkpoint directory path is the current directory"
+
+`CheckpointConfig { directory: PathBuf::new(), .. }`: `create_dir_all("")` is `Ok(())`, `Path::new("").exists()` is
+false, `read_dir("")` fails, `Path::new("").join(name)` is a file in the current directory. In the model that is an
+environment with `dirCreatable`, `¬ dirExists`, `¬ dirListable`: the run is transparent, every save writes its file
+(retention fails after the write), and the final clear does nothing — REPRODUCED on the real code: a successful run
+left all its checkpoint files in the current directory. The fix makes `CheckpointManager::new` replace the empty path
+by `"."`, for which all three hold. -/
+
+/-- the directory state the pinned code had for the empty path -/
+def Legacy.emptyPathEnv (env : Env) : Env := { env with dirCreatable := true, dirExists := false, dirListable := false }
+
+/-- (pinned code, empty path) the run goes through and returns the plain result … -/
+theorem legacy_empty_path_transparent (env : Env) (hsafe : SafeDecoder env) (cfg : Config) (fs : FS)
+    (chain : List (Node P)) :
+    (execSeqCkpt (Legacy.emptyPathEnv env) cfg fs chain).outcome = .finished (execSeq chain) :=
+  ckpt_transparent (Legacy.emptyPathEnv env) hsafe cfg ⟨rfl, fun _ h => by cases h⟩ fs chain
+
+/-- … but **NEGATION of "clean after success" (pinned code, empty path)**: after a successful run the directory is
+    what a run killed after its last node leaves — nothing is cleared, and retention never ran. -/
+theorem legacy_empty_path_clears_nothing (env : Env) (cfg : Config) (fs : FS) (chain : List (Node P)) (v : P)
+    (hok : (execSeqCkpt (Legacy.emptyPathEnv env) cfg fs chain).outcome = .finished (.ok v)) :
+    (execSeqCkpt (Legacy.emptyPathEnv env) cfg fs chain).fs = crashFs (Legacy.emptyPathEnv env) cfg fs chain chain.length :=
+  unlistable_success_clears_nothing (Legacy.emptyPathEnv env) cfg fs chain (Or.inl rfl) v hok
+
+/-! ## 3c. The terminal downcast (`run_collect::<T>`) and the partition count as the caller writes it -/
+
+section Typed
+variable {R : Type}
+
+/-- the two textual copies of `partitions.or(suggested_parts).unwrap_or(self.default_partitions)` in `run_collect`
+    (checkpointing branch, plain branch) compute the same partition count -/
+theorem partition_resolution_copies_agree (p s : Option Nat) (d : Nat) :
+    resolvePartsCk p s d = resolvePartsPlain p s d := rfl
+
+/-- **Transparency of `run_collect::<T>`, sequential**: also for a `T` the terminal partition does not have — then
+    both engines return `Err("terminal type mismatch")`. -/
+theorem typed_transparent (cast : P → Option R) (env : Env) (hsafe : SafeDecoder env) (cfg : Config)
+    (hdir : DirUsable env cfg) (fs : FS) (chain : List (Node P)) :
+    (execSeqCkptT cast env cfg fs chain).outcome = .finished (castRes cast (execSeq chain)) := by
+  have h := ckpt_transparent env hsafe cfg hdir fs chain
+  unfold execSeqCkptT
+  simp only [h]
+  cases h2 : execSeq chain with
+  | error e => rfl
+  | ok b =>
+    simp only [castRes]
+    cases cast b <;> rfl
+
+theorem typed_transparent_par (cast : P → Option R) (concat : List P → P) (env : Env) (hsafe : SafeDecoder env)
+    (cfg : Config) (hdir : DirUsable env cfg) (fs : FS) (chain : List (Node P)) (n : Nat) :
+    (execParCkptT cast concat env cfg fs chain n).outcome = .finished (castRes cast (execPar concat chain n)) := by
+  have h := ckpt_transparent_par concat env hsafe cfg hdir fs chain n
+  unfold execParCkptT
+  simp only [h]
+  cases h2 : execPar concat chain n with
+  | error e => rfl
+  | ok b =>
+    simp only [castRes]
+    cases cast b <;> rfl
+
+/-- **`Runner::run_collect::<T>` as the caller writes it** — either mode, `partitions` given or `None` (then the
+    planner's suggestion, then `default_partitions`), any `threads`, any requested `T`: the outcome with ANY checkpoint
+    configuration (when it is enabled: into a usable directory) on ANY directory content equals the outcome without a
+    checkpoint configuration. -/
+theorem run_collect_typed_transparent (cast : P → Option R) (concat : List P → P) (env : Env)
+    (hsafe : SafeDecoder env) (mode : ModeSpec)
+    (dflt : Nat) (suggested : Option Nat) (ck : Option (Bool × Config))
+    (hdir : ∀ cfg, ck = some (true, cfg) → DirUsable env cfg) (fs fs' : FS) (chain : List (Node P)) :
+    (runCollectT cast concat env { mode := mode, defaultPartitions := dflt, checkpoint := ck } suggested fs chain).outcome =
+      (runCollectT cast concat env { mode := mode, defaultPartitions := dflt, checkpoint := none } suggested fs' chain).outcome := by
+  unfold runCollectT
+  cases ck with
+  | none => cases mode <;> rfl
+  | some c =>
+    obtain ⟨en, cfg⟩ := c
+    cases en with
+    | false => cases mode <;> rfl
+    | true =>
+      cases mode with
+      | sequential => exact typed_transparent cast env hsafe cfg (hdir cfg rfl) fs chain
+      | parallel t p => exact typed_transparent_par cast concat env hsafe cfg (hdir cfg rfl) fs chain _
+
+/-- **A wrong `T`, sequential**: the `Err` comes after the node loop and BEFORE `clear_checkpoints` — every
+    checkpoint file the loop saved stays (the directory is what a run killed after its last node leaves). -/
+theorem type_mismatch_leaves_what_was_saved (cast : P → Option R) (env : Env) (cfg : Config) (fs : FS)
+    (chain : List (Node P)) (b : P) (hb : (execSeqCkpt env cfg fs chain).outcome = .finished (.ok b))
+    (hcast : cast b = none) :
+    (execSeqCkptT cast env cfg fs chain).outcome = .finished (.error .typeMismatch) ∧
+    (execSeqCkptT cast env cfg fs chain).fs = crashFs env cfg fs chain chain.length := by
+  unfold execSeqCkptT
+  simp only [hb, hcast]
+  exact ⟨trivial, trivial⟩
+
+/-- **A wrong `T`, parallel**: `exec_par` itself returns the `Err`, so the `"Failed"` marker is saved. -/
+theorem type_mismatch_par_saves_marker (cast : P → Option R) (concat : List P → P) (env : Env) (cfg : Config)
+    (fs : FS) (chain : List (Node P)) (n : Nat) (b : P)
+    (hb : (execParCkpt concat env cfg fs chain n).outcome = .finished (.ok b)) (hcast : cast b = none)
+    (hs : storeFailsAtEnd env chain.length = false) :
+    (execParCkptT cast concat env cfg fs chain n).outcome = .finished (.error .typeMismatch) ∧
+    (execParCkptT cast concat env cfg fs chain n).fs =
+      (saveD env.isDir env.dirListable cfg.max fs
+        (failedState env (parPid env chain.length n) chain.length n (stampOf (env.clock 0)))).getD fs := by
+  unfold execParCkptT
+  simp only [hb, hcast, hs]
+  exact ⟨trivial, rfl⟩
+
+/-- **Clean after success, typed**: a `run_collect::<T>` that returns `Ok` leaves no checkpoint file of its id. -/
+theorem typed_clean_after_success (cast : P → Option R) (env : Env) (hl : env.dirListable = true) (cfg : Config)
+    (fs : FS) (chain : List (Node P)) (hs : storeFailsAtEnd env chain.length = false) (v : R)
+    (hok : (execSeqCkptT cast env cfg fs chain).outcome = .finished (.ok v)) :
+    ∀ f ∈ (execSeqCkptT cast env cfg fs chain).fs, ownFile env.isDir (seqPid env chain.length) f.1 = false := by
+  unfold execSeqCkptT at hok ⊢
+  cases ho : (execSeqCkpt env cfg fs chain).outcome with
+  | finished r =>
+    cases r with
+    | error e => simp [ho] at hok
+    | ok b =>
+      cases hcb : cast b with
+      | none => simp [ho, hcb] at hok
+      | some w =>
+        simp only [ho, hcb]
+        exact ckpt_clean_after_success env hl cfg fs chain hs b ho
+  | died e => simp [ho] at hok
+  | setupFailed e => simp [ho] at hok
+
+theorem typed_clean_after_success_par (cast : P → Option R) (concat : List P → P) (env : Env)
+    (hl : env.dirListable = true) (cfg : Config) (fs : FS) (chain : List (Node P))
+    (hs : storeFailsAtEnd env chain.length = false) (n : Nat) (v : R)
+    (hok : (execParCkptT cast concat env cfg fs chain n).outcome = .finished (.ok v)) :
+    ∀ f ∈ (execParCkptT cast concat env cfg fs chain n).fs,
+      ownFile env.isDir (parPid env chain.length n) f.1 = false := by
+  unfold execParCkptT at hok ⊢
+  cases ho : (execParCkpt concat env cfg fs chain n).outcome with
+  | finished r =>
+    cases r with
+    | error e => simp [ho] at hok
+    | ok b =>
+      cases hcb : cast b with
+      | none => simp [ho, hcb] at hok
+      | some w =>
+        simp only [ho, hcb]
+        exact ckpt_clean_after_success_par concat env hl cfg fs chain hs n b ho
+  | died e => simp [ho] at hok
+  | setupFailed e => simp [ho] at hok
+
+/-- **Clean after success at the level of `Runner::run_collect::<T>`** (either mode, `partitions` given or `None`):
+    whenever a run with an ENABLED checkpoint configuration returns `Ok` — and the store worked to the end — the
+    directory holds no checkpoint file of the pipeline id the run used. -/
+theorem run_collect_clean_after_success (cast : P → Option R) (concat : List P → P) (env : Env)
+    (hl : env.dirListable = true) (mode : ModeSpec) (dflt : Nat) (suggested : Option Nat) (cfg : Config) (fs : FS)
+    (chain : List (Node P)) (hs : storeFailsAtEnd env chain.length = false) (v : R)
+    (hok : (runCollectT cast concat env { mode := mode, defaultPartitions := dflt, checkpoint := some (true, cfg) }
+              suggested fs chain).outcome = .finished (.ok v)) :
+    ∀ f ∈ (runCollectT cast concat env { mode := mode, defaultPartitions := dflt, checkpoint := some (true, cfg) }
+              suggested fs chain).fs,
+      ownFile env.isDir
+        (match mode with
+         | .sequential => seqPid env chain.length
+         | .parallel _ p => parPid env chain.length (resolvePartsCk p suggested dflt)) f.1 = false := by
+  cases mode with
+  | sequential => exact typed_clean_after_success cast env hl cfg fs chain hs v hok
+  | parallel t p => exact typed_clean_after_success_par cast concat env hl cfg fs chain hs _ v hok
+
+/-- however a typed sequential run ends (the type mismatch included), nothing but checkpoint files of its own id is
+    touched -/
+theorem typed_other_entries_untouched (cast : P → Option R) (env : Env) (cfg : Config) (fs : FS)
+    (chain : List (Node P)) :
+    clearD env.isDir (seqPid env chain.length) (execSeqCkptT cast env cfg fs chain).fs =
+      clearD env.isDir (seqPid env chain.length) fs := by
+  have h := other_entries_untouched env cfg fs chain
+  unfold execSeqCkptT
+  cases ho : (execSeqCkpt env cfg fs chain).outcome with
+  | finished r =>
+    cases r with
+    | error e => simpa [ho] using h
+    | ok b =>
+      cases hcb : cast b with
+      | none =>
+        simp only [ho, hcb]
+        exact crash_leaves_only_own_files env cfg fs chain chain.length
+      | some w => simpa [ho, hcb] using h
+  | died e => simpa [ho] using h
+  | setupFailed e => simpa [ho] using h
+
+end Typed
 
 /-! ## 4. The pinned commit: no `CoGroup` arm (DESIGN §8 #7) -/
 
@@ -744,7 +984,7 @@ example :
 
 /-- … and after the full run it is gone again -/
 example : (execSeqCkpt exEnv { policy := .afterEveryBarrier, autoRecover := true, max := none } [] wChain).fs = [] := by
-  rw [ckpt_success_fs exEnv rfl _ [] wChain 43 (witness_current_result exEnv exEnv_safe _ (exEnv_usable _) [])]
+  rw [ckpt_success_fs exEnv rfl _ [] wChain rfl 43 (witness_current_result exEnv exEnv_safe _ (exEnv_usable _) [])]
   rfl
 
 /-- the hypotheses of `crash_then_recover_clean` / `success_clears_equal_length_pipelines_files` are satisfiable:
@@ -776,6 +1016,38 @@ example (cfg : Config) :
     (fileNameOf (seqPid exEnv 3) 5, []) ∈ (execSeqCkpt exEnvDir cfg [(fileNameOf (seqPid exEnv 3) 5, [])] wChain).fs :=
   own_named_directory_survives exEnvDir cfg _ wChain _ (List.mem_singleton.mpr rfl)
     (by show (fileNameOf (seqPid exEnv 3) 5 == fileNameOf (seqPid exEnv 3) 5) = true; simp)
+
+/-- **NEGATION witness (pinned code, empty path)**: a successful run of `wChain` under `AfterEveryBarrier` — even with
+    retention `Some(0)` — returns the plain result and leaves the record of its barrier node behind (in the current
+    directory): "a successful run leaves none of its checkpoint files behind" was false there. -/
+theorem legacy_empty_path_witness :
+    (execSeqCkpt (Legacy.emptyPathEnv exEnv) { policy := .afterEveryBarrier, autoRecover := true, max := some 0 } []
+        wChain).outcome = .finished (.ok 43) ∧
+    (execSeqCkpt (Legacy.emptyPathEnv exEnv) { policy := .afterEveryBarrier, autoRecover := true, max := some 0 } []
+        wChain).fs =
+      [(fileNameOf (seqPid exEnv 3) (stampOf (exEnv.clock 0)),
+        encode (seqState exEnv (seqPid exEnv 3) 1 3 (stampOf (exEnv.clock 0)) (ascii "CoGroup")))] := ⟨rfl, rfl⟩
+
+/-- the hypotheses of `unlistable_success_clears_nothing` (store failing mid-run) are satisfiable, and the statement
+    has content: the checkpoint directory is taken away while node 2 of `wChain` runs; under `EveryNNodes 1` the run
+    still returns 43, the record saved after node 1 is what stays, the save after node 2 and the final clear failed -/
+example :
+    (execSeqCkpt { exEnv with failFrom := some 2 } { policy := .everyNNodes 1, autoRecover := false, max := none } []
+        wChain).outcome = .finished (.ok 43) ∧
+    (execSeqCkpt { exEnv with failFrom := some 2 } { policy := .everyNNodes 1, autoRecover := false, max := none } []
+        wChain).fs =
+      [(fileNameOf (seqPid exEnv 3) (stampOf (exEnv.clock 0)),
+        encode (seqState exEnv (seqPid exEnv 3) 1 3 (stampOf (exEnv.clock 0)) (ascii "CoGroup")))] := ⟨rfl, rfl⟩
+
+/-- a wrong `T` (`cast = fun _ => none`): the typed run returns the type mismatch and keeps the record (instance of
+    `type_mismatch_leaves_what_was_saved`) -/
+example :
+    (execSeqCkptT (R := Nat) (fun _ => none) exEnv { policy := .afterEveryBarrier, autoRecover := false, max := none } []
+        wChain).outcome = .finished (.error .typeMismatch) ∧
+    (execSeqCkptT (R := Nat) (fun _ => none) exEnv { policy := .afterEveryBarrier, autoRecover := false, max := none } []
+        wChain).fs =
+      [(fileNameOf (seqPid exEnv 3) (stampOf (exEnv.clock 0)),
+        encode (seqState exEnv (seqPid exEnv 3) 1 3 (stampOf (exEnv.clock 0)) (ascii "CoGroup")))] := ⟨rfl, rfl⟩
 
 /-- `EveryNNodes 0` never saves (`is_multiple_of(0)` is `== 0`, and index 0 is excluded) -/
 example (idx : Nat) (b : Bool) (last : Option Nat) (now : Nat) :
